@@ -34,6 +34,8 @@ import (
 	"fmt"
 	"io"
 	"net"
+	"os"
+	"reflect"
 	"runtime"
 	"sort"
 	"strings"
@@ -41,6 +43,7 @@ import (
 	"sync/atomic"
 	"testing"
 	"time"
+	"unsafe"
 
 	sem2 "github.com/megaease/easegress/pkg/util/sem"
 	"pgregory.net/rapid"
@@ -59,10 +62,13 @@ func vfC17WaitBound() time.Duration {
 	return vfC17WaitLong
 }
 
-type vfC17Addr struct{}
+// vfC17Addr is the address of an in-memory connection; the remote address carries the dial number,
+// which is how the harness recognises a connection that LimitListener.Accept hands back (the
+// wrapper type and its fields are none of the harness's business).
+type vfC17Addr struct{ id int }
 
-func (vfC17Addr) Network() string { return "vf" }
-func (vfC17Addr) String() string  { return "vf-inmem" }
+func (vfC17Addr) Network() string  { return "vf" }
+func (a vfC17Addr) String() string { return fmt.Sprintf("vf-inmem-%d", a.id) }
 
 type vfC17TempErr struct{}
 
@@ -81,8 +87,8 @@ type vfC17Conn struct {
 
 func (c *vfC17Conn) Read(b []byte) (int, error)         { return 0, io.EOF }
 func (c *vfC17Conn) Write(b []byte) (int, error)        { return len(b), nil }
-func (c *vfC17Conn) LocalAddr() net.Addr                { return vfC17Addr{} }
-func (c *vfC17Conn) RemoteAddr() net.Addr               { return vfC17Addr{} }
+func (c *vfC17Conn) LocalAddr() net.Addr                { return vfC17Addr{-1} }
+func (c *vfC17Conn) RemoteAddr() net.Addr               { return vfC17Addr{c.id} }
 func (c *vfC17Conn) SetDeadline(t time.Time) error      { return nil }
 func (c *vfC17Conn) SetReadDeadline(t time.Time) error  { return nil }
 func (c *vfC17Conn) SetWriteDeadline(t time.Time) error { return nil }
@@ -142,7 +148,7 @@ func (l *vfC17Ln) Close() error {
 	l.mu.Unlock()
 	return nil
 }
-func (l *vfC17Ln) Addr() net.Addr { return vfC17Addr{} }
+func (l *vfC17Ln) Addr() net.Addr { return vfC17Addr{-1} }
 
 func (l *vfC17Ln) push(cs ...*vfC17Conn) {
 	l.mu.Lock()
@@ -199,6 +205,8 @@ type vfC17Rig struct {
 	viols      []vfC17Viol
 	hist       []string
 	acceptErrs int
+	inner      map[int]*vfC17Conn // dial number -> the inner connection the fake listener handed out
+	sem        *sem2.Semaphore    // the listener's semaphore, found by type at run time (nil: not found)
 	public     bool // changes go through LimitListener.SetMaxConnection (no done channel, as in runtime.reload)
 	baseG      int  // runtime.NumGoroutine() before the case created anything
 
@@ -244,9 +252,14 @@ func (r *vfC17Rig) acceptLoop() {
 }
 
 func (r *vfC17Rig) onAccept(c net.Conn) {
-	inner := c.(*limitListenerConn).Conn.(*vfC17Conn)
+	a, ok := c.RemoteAddr().(vfC17Addr)
 	r.mu.Lock()
 	defer r.mu.Unlock()
+	inner := r.inner[a.id]
+	if !ok || inner == nil {
+		r.violate("accept-returned-a-connection-nobody-dialled", "Accept returned a connection with remote address %v", c.RemoteAddr())
+		return
+	}
 	r.counter++
 	r.acceptedN++
 	r.open[inner.id] = c
@@ -292,7 +305,7 @@ func (r *vfC17Rig) setMax(n int) {
 	r.logf("setmax %d->%d (open>=%d, inflight=%d)", ch.old, n, r.counter, r.inflight)
 	r.mu.Unlock()
 
-	if r.public {
+	if r.public || r.sem == nil {
 		// exactly the production call; nobody learns when it has been applied, so the epoch stays
 		// "in flight" until the end of the case (only the max-of-all-caps bound and the exact
 		// capacity at quiescence are checked in such a case)
@@ -300,7 +313,7 @@ func (r *vfC17Rig) setMax(n int) {
 		r.ll.SetMaxConnection(uint32(n))
 		return
 	}
-	ch.done = r.ll.sem.SetMaxCount(int64(uint32(n)))
+	ch.done = r.sem.SetMaxCount(int64(uint32(n)))
 
 	r.wg.Add(1)
 	go func() {
@@ -327,6 +340,10 @@ func (r *vfC17Rig) dial(k int, closeErr bool) {
 	cs := make([]*vfC17Conn, 0, k)
 	for i := 0; i < k; i++ {
 		cs = append(cs, &vfC17Conn{id: r.dialed, rig: r, closeErr: closeErr})
+		if r.inner == nil {
+			r.inner = map[int]*vfC17Conn{}
+		}
+		r.inner[r.dialed] = cs[len(cs)-1]
 		r.dialed++
 	}
 	r.logf("dial x%d (#%d..)", k, cs[0].id)
@@ -346,8 +363,9 @@ func (r *vfC17Rig) closeConn(id int) {
 	r.closed[id] = c
 	r.counter--
 	r.logf("close#%d", id)
+	inner := r.inner[id]
 	r.mu.Unlock()
-	atomic.StoreInt32(&c.(*limitListenerConn).Conn.(*vfC17Conn).byHarness, 1)
+	atomic.StoreInt32(&inner.byHarness, 1)
 	c.Close()
 }
 
@@ -436,6 +454,56 @@ func (r *vfC17Rig) settle() (vfC17Outcome, string) {
 	return vfC17OK, ""
 }
 
+// behaviouralCapacityProbe is the substitute for counting free permits when the listener's
+// semaphore cannot be reached: everything is closed, the goroutines SetMaxCount started have ended
+// (so the capacity is final), then cap+2 fresh dials arrive. Exactly cap of them may be accepted: one
+// more is flagged by the accept check (the epoch is stable now); fewer within the bound is only
+// inconclusive, a lost permit and a slow machine cannot be told apart from outside.
+func (r *vfC17Rig) behaviouralCapacityProbe() (bool, string) {
+	w := r.ln.withdraw()
+	r.mu.Lock()
+	r.withdrawn += w
+	ids := r.openIDs()
+	r.mu.Unlock()
+	for _, id := range ids {
+		r.closeConn(id)
+	}
+	deadline := time.Now().Add(vfC17WaitBound())
+	for runtime.NumGoroutine() > r.baseG+1 { // +1: the acceptor loop
+		// a connection accepted a moment ago still holds a permit a pending shrink may be waiting for
+		r.mu.Lock()
+		ids = r.openIDs()
+		r.mu.Unlock()
+		for _, id := range ids {
+			r.closeConn(id)
+		}
+		if time.Now().After(deadline) {
+			atomic.StoreInt32(&vfC17ExpiredOnce, 1)
+			return false, "goroutines started by SetMaxCount still running after every connection was closed"
+		}
+		time.Sleep(50 * time.Microsecond)
+	}
+	// connections accepted in the meantime are closed too, then the epoch is declared stable
+	r.mu.Lock()
+	ids = r.openIDs()
+	r.mu.Unlock()
+	for _, id := range ids {
+		r.closeConn(id)
+	}
+	r.mu.Lock()
+	r.inflight = 0
+	r.stableCap = r.lastIssued
+	r.maxCaps = r.stableCap
+	want := r.stableCap
+	r.logf("behavioural capacity probe: cap %d, %d dials", want, want+2)
+	r.mu.Unlock()
+	r.dial(want+2, false)
+	if !r.waitFor(func() bool { return r.counter >= want }) {
+		return false, fmt.Sprintf("behavioural capacity probe: fewer than %d of %d fresh dials accepted within the bound (no permit count available to tell a lost permit from a slow machine)", want, want+2)
+	}
+	return true, ""
+}
+
 // quiesce closes the listener and everything else; afterwards nothing runs any more.
 // Returns false if a bounded wait expired.
 func (r *vfC17Rig) quiesce() (bool, string) {
@@ -477,6 +545,25 @@ func (r *vfC17Rig) quiesce() (bool, string) {
 		}
 	}
 	return true, ""
+}
+
+// vfC17SemOf finds the semaphore inside a LimitListener by TYPE (whatever the field is called) so
+// that the harness can keep the done channel of SetMaxCount and count free permits. nil when the
+// listener no longer holds a *sem.Semaphore (then changes go through SetMaxConnection only and the
+// capacity is probed behaviourally). VERIF_C17_NOREFLECT=1 forces that fallback.
+func vfC17SemOf(l *LimitListener) *sem2.Semaphore {
+	if os.Getenv("VERIF_C17_NOREFLECT") != "" {
+		return nil
+	}
+	v := reflect.ValueOf(l).Elem()
+	want := reflect.TypeOf((*sem2.Semaphore)(nil))
+	for i := 0; i < v.NumField(); i++ {
+		f := v.Field(i)
+		if f.Type() == want && f.CanAddr() {
+			return *(**sem2.Semaphore)(unsafe.Pointer(f.UnsafeAddr()))
+		}
+	}
+	return nil
 }
 
 var (
@@ -600,6 +687,10 @@ func TestVerifC17Listener(t *testing.T) {
 			stableCap: cap0, lastIssued: cap0, maxCaps: cap0, public: public, baseG: runtime.NumGoroutine()}
 		r.cond = sync.NewCond(&r.mu)
 		r.ll = NewLimitListener(r.ln, uint32(cap0))
+		r.sem = vfC17SemOf(r.ll)
+		if r.sem == nil {
+			public, r.public = true, true
+		}
 		go r.acceptLoop()
 
 		changeWhileOpen, overlap, shrinkBelow, grow, same, dbl := false, false, false, false, false, false
@@ -699,7 +790,20 @@ func TestVerifC17Listener(t *testing.T) {
 			}
 		}
 
+		probeOK, probeWhy := true, ""
+		if r.sem == nil && !expired {
+			vf.Class("probe-unavailable:listener-semaphore (changes via SetMaxConnection only, capacity probed by dialling)")
+			r.mu.Lock()
+			nv := len(r.viols)
+			r.mu.Unlock()
+			if nv == 0 {
+				probeOK, probeWhy = r.behaviouralCapacityProbe()
+			}
+		}
 		qok, qwhy := r.quiesce()
+		if qok && !probeOK {
+			qok, qwhy = false, probeWhy
+		}
 		r.mu.Lock()
 		hist := strings.Join(r.hist, "; ")
 		viols := append([]vfC17Viol(nil), r.viols...)
@@ -761,8 +865,8 @@ func TestVerifC17Listener(t *testing.T) {
 		if !qok {
 			rt.Fatalf("VF-INCONCLUSIVE %s\nscript: %s\nhistory: %s", qwhy, script, hist)
 		}
-		if vfC17ProbeOK {
-			free := vfC17Free(r.ll.sem, finalCap+3)
+		if vfC17ProbeOK && r.sem != nil {
+			free := vfC17Free(r.sem, finalCap+3)
 			vf.Class("exact-capacity-probe")
 			if free < finalCap {
 				if vf.Violation(rt, "capacity-lost-after-all-connections-closed", "everything closed and every change done: %d free permits, cap %d (released capacity is not usable again)%s\nscript: %s\nhistory: %s", free, finalCap, map[bool]string{true: " [found after a bounded wait expired: " + why + "]", false: ""}[expired], script, hist) {
